@@ -167,6 +167,21 @@ EXTRA7 = {
 }
 for _pid, _t in EXTRA7.items():
     EXTRA[_pid] = EXTRA.get(_pid, '') + ' ' + _t
+EXTRA8 = {
+ 'C01': 'NaN and infinities among the values; blank fields, embedded interfaces and fields repeated behind embedded structs in the shape grammar.',
+ 'C02': 'A function-local type that shadows the field\'s named type is requested as focus type after the valid derivation.',
+ 'C04': 'Join whose outer optic computes its map (a text field decoded through BiMap) with a map lens inside.',
+ 'C06': 'Callbacks that end their goroutine (runtime.Goexit, as t.Fatal does) at the first, a middle and the last element of every stage; one unshared morphism in three is a user struct embedding the library-made F/FF.',
+ 'C07': 'Decorated morphisms (user structs embedding a Lift/Try value and overriding Apply).',
+ 'C09': 'Callbacks that end their worker\'s goroutine: the outputs close and the other workers deliver the other elements.',
+ 'C14': 'From values lifted once for the whole process and used in many places; every expression is also used as an operand of discarded Plus/Map expressions before it is drained.',
+ 'C15': 'The same for pair.From values and pair.Plus/Map.',
+ 'C16': 'Lifted arguments as L1/L2 values, zero values, or values converted from other type parameters.',
+ 'C18': 'Key sorts include floats with both zeros under the IEEE total order and interface keys holding slices.',
+ 'C20': 'A supplied function panics at stage k and the caller recovers: later calls are whole.',
+}
+for _pid, _t in EXTRA8.items():
+    EXTRA[_pid] = EXTRA.get(_pid, '') + ' ' + _t
 for _pid, _t in EXTRA.items():
     TEXT[_pid]['text'] += ' ' + _t
 TEXT['C09']['note'] = 'Fail-fast (Lift) mode is exercised at scale only for closure, no-leak and "errors only for failing elements" (which workers fail first is not determined); the multiset verdict is for Pure and Try modes. Distinct output orders are counted per child process.'
